@@ -196,8 +196,20 @@ def build_lean():
     """returns dict(ok, broken=[{file,line,decl,msg}], axioms={thm:[..]}, forbidden=[..], wall)"""
     t0 = time.time()
     res = dict(ok=True, broken=[], axioms={}, forbidden=[], translate="ok")
-    rc, out, err = sh([sys.executable, os.path.join(VERIF, "tools", "translate.py"), "--repo", REPO,
-                       "--out", os.path.join(LEAN, "PFV", "Generated.lean")], timeout=120)
+    tr_cmd = [sys.executable, os.path.join(VERIF, "tools", "translate.py"), "--repo", REPO,
+              "--out", os.path.join(LEAN, "PFV", "Generated.lean")]
+    rc, out, err = sh(tr_cmd, timeout=120)
+    if rc != 0 and re.search(r"as_u8|PICKLE_OPCODES|table", err or ""):
+        # opcodes.rs has a shape the translator does not recognise (a refactoring): take as_u8 and the per-protocol
+        # tables from the compiled code instead (`pfv-harness tables` evaluates them through the hooks)
+        try:
+            if build_harness()["ok"]:
+                tf = os.path.join(BUILD, "tables.txt")
+                open(tf, "w").write(_harness_one(["tables"]))
+                rc, out, err = sh(tr_cmd + ["--tables", tf], timeout=120)
+                res["tables_from"] = "compiled code"
+        except Exception as e:
+            res["tables_fallback_error"] = str(e)[:200]
     # refusals of the translator's syntactic C14 section concern C14 only (reported there, not here)
     res["heap_refused"] = [l.split("C14-REFUSED:", 1)[1].strip() for l in (err or "").split("\n") if "C14-REFUSED:" in l]
     if rc != 0:
